@@ -288,7 +288,13 @@ func (c *Conn) Snapshot() ([]WriteRec, int) {
 
 // waitCond waits on cond for at most d (cond.L held).
 func waitCond(cond *sync.Cond, d time.Duration) {
-	t := time.AfterFunc(d, cond.Broadcast)
+	// The wake-up takes the lock first: the caller holds it until Wait has put itself on the wait list,
+	// so the broadcast cannot be lost when the timer fires before Wait has started (busy machine).
+	t := time.AfterFunc(d, func() {
+		cond.L.Lock()
+		cond.Broadcast()
+		cond.L.Unlock()
+	})
 	cond.Wait()
 	t.Stop()
 }
